@@ -263,7 +263,11 @@ inline void runC07(Ctx &c)
                     rig.opt->setRho(r.coin() ? 0.0 : r.uni(0.05, 1.0));
                     rig.opt->setSteps(r.range(1, 20));
                 }
-                (void)rig.opt->evaluate(r.coin(0.2) ? x : xPrev, gPrev, oc.prog, eo);
+                EvalOpts eoPrev = eo;
+                if (r.coin(0.5))
+                    eoPrev.threeCosts = !eo.threeCosts; // the earlier call went through the other overload (with / without a waypoint cost)
+                (void)rig.opt->evaluate(r.coin(0.2) ? x : xPrev, gPrev, oc.prog, eoPrev);
+                c.event(eoPrev.threeCosts != eo.threeCosts ? "evaluation.after_call_through_other_overload" : "evaluation.after_call_through_same_overload");
                 if (other)
                 {
                     rig.opt->setRho(oc.rho);
@@ -350,7 +354,11 @@ inline void runC08(Ctx &c)
                     rig.opt->setRho(r.coin() ? 0.0 : r.uni(0.05, 1.0));
                     rig.opt->setSteps(r.range(1, 20));
                 }
-                (void)rig.opt->evaluate(r.coin(0.2) ? x : xPrev, gPrev, oc.prog, eo); // not recorded
+                EvalOpts eoPrev = eo;
+                if (r.coin(0.5))
+                    eoPrev.threeCosts = !eo.threeCosts;
+                (void)rig.opt->evaluate(r.coin(0.2) ? x : xPrev, gPrev, oc.prog, eoPrev); // not recorded
+                c.event(eoPrev.threeCosts != eo.threeCosts ? "evaluation.after_call_through_other_overload" : "evaluation.after_call_through_same_overload");
                 if (other)
                 {
                     rig.opt->setRho(oc.rho);
@@ -772,9 +780,51 @@ inline void runC09(Ctx &c)
                     const int len = r.range(4, thorough ? 24 : 12);
                     for (int step = 0; step < len && !c.case_failed; ++step)
                     {
-                        int op = r.range(0, 4);
+                        int op = r.range(0, 5);
+                        if (op == 5)
+                        {
+                            // warm restart: the exposed spline's own getters are passed straight back into setInitState
+                            // (references into the optimizer's built-in workspace)
+                            auto sp = rig.opt->optimalSpline();
+                            bool usable = (bool)sp && sp->isInitialized();
+                            Problem nr;
+                            const int which = r.range(0, 1);
+                            if (usable)
+                            {
+                                nr.order = order;
+                                nr.dim = dim;
+                                nr.T = sp->timeSegments();
+                                nr.N = (int)nr.T.size();
+                                nr.P = sp->spacePoints();
+                                nr.bc = sp->boundary();
+                                nr.t0 = sp->startTime();
+                                if (which == 1)
+                                {
+                                    std::vector<double> tp = sp->cumTimes();
+                                    for (int i = 0; i < nr.N; ++i)
+                                        nr.T[i] = tp[i + 1] - tp[i];
+                                    nr.t0 = tp[0];
+                                }
+                                for (double t : nr.T)
+                                    usable = usable && std::isfinite(t) && t >= 2e-3 && t < 1e6;
+                                usable = usable && allFinite(nr.P) && std::fabs(nr.t0) < 1e9;
+                            }
+                            if (usable)
+                            {
+                                bool ok = rig.opt->reinitFromOwnSpline(which);
+                                oc.ref = nr;
+                                oc.initByPoints = which == 1;
+                                trace.push_back(std::string("setInitState(own spline getters, ") + (which ? "time points" : "durations") + ") N=" + std::to_string(nr.N) + (ok ? "" : " REJECTED"));
+                                c.require("C09.warm_restart_from_own_spline_accepted", ok && rig.opt->isValid(), okey(oc, "setup"), rig.opt->lastError());
+                                c.event("op.warm_restart_from_own_spline");
+                            }
+                            else
+                                op = 0;
+                        }
                         switch (op)
                         {
+                        case 5:
+                            break;
                         case 0:
                             oc.flags = OptFlags::fromByte(r.range(0, 255));
                             rig.opt->setFlags(oc.flags);
